@@ -226,12 +226,45 @@ def rules(ck, P):
         ensures = sum(1 for n in ir.walk_nodes(b["body"]) if n.get("k") == "call" and n.get("q") == "anyhow::__private::not")
         ck.check(len(parses) == 3 and ensures >= 3, "R-STATUS", b["q"] + "|parse", "z/x/y parse failures are reported as Err (400)", "coordinate parsing is not guarded by three ensure! checks", ir.loc(b))
         look = [n for n in ir.walk_nodes(b["body"]) if n.get("k") == "mcall" and (n.get("q") or "").endswith("TilesReaderTrait::get_tile_data")]
-        ok_none = False
-        for n in ir.walk_nodes(b["body"]):
-            if n.get("k") == "if" and ir.contains(n["c"], lambda y: y.get("k") == "mcall" and y.get("name") == "is_err") and ir.diverges(n["then"]):
-                ok_none = ir.contains(n["then"], lambda y: y.get("k") == "call" and "Ok" in (y.get("q") or "") and ir.contains(y, lambda z: "None" in (z.get("q") or "")))
-        ck.check(len(look) == 1 and ok_none, "R-STATUS", b["q"] + "|lookup-error", "a failing lookup is answered as 'no tile' (404), not as a dropped connection",
-                 "lookup errors are not mapped to Ok(None)", ir.loc(b))
+        # what get_data makes of the three possible lookup results: evaluated abstractly (absint) from the statement that holds the
+        # lookup to the end of its block, with the lookup replaced by Err / Ok(None) / Ok(Some(tile))
+        outcome = {}
+        why_l = ""
+        if len(look) == 1:
+            blk, at = None, None
+            for n in ir.walk_nodes(ir.fn_block(b)):
+                if n.get("k") == "block":
+                    for i_, st in enumerate(ir.stmts_of(n)):
+                        if ir.contains(st, lambda y: y is look[0]) and not ir.contains(st, lambda y: y.get("k") == "block" and y is not st and
+                                                                                        any(ir.contains(s2, lambda z: z is look[0]) for s2 in ir.stmts_of(y))):
+                            blk, at = n, i_
+            if blk is not None:
+                rest = ir.stmts_of(blk)[at:]
+                for name, val in (("err", absint.err()), ("none", absint.ok(absint.NONE)), ("some", absint.ok(absint.some(("blob", "U"))))):
+                    it = absint.Interp(P, handlers={"*TilesReaderTrait::get_tile_data": (lambda _s, _a, _n, v=val: v),
+                                                    "*SourceResponse::new_some": (lambda _s, _a, _n: absint.some(("struct", {"resp": True}))),
+                                                    "*mem::drop": (lambda _s, _a, _n: absint.OPAQUE)})
+                    env = {}
+                    try:
+                        r = ("tuple", [])
+                        for st in rest:
+                            r = it.ev(st, env)
+                        outcome[name] = r
+                    except absint.Return as ret:
+                        outcome[name] = ret.v
+                    except (absint.Unsupported, KeyError, IndexError, TypeError) as ex:
+                        outcome[name] = ("unsupported", str(ex))
+                        why_l = "cannot evaluate the handling of the lookup result (%s)" % ex
+
+        def is_ok_none(v):
+            return absint.is_variant(v, "Result::Ok") and v[2] and absint.is_variant(v[2][0], "Option::None")
+
+        def is_ok_some(v):
+            return absint.is_variant(v, "Result::Ok") and v[2] and absint.is_variant(v[2][0], "Option::Some")
+        shown = {k_: ("Ok(None)" if is_ok_none(v) else "Ok(Some(response))" if is_ok_some(v) else "Err" if absint.is_variant(v, "Result::Err") else str(v)[:40]) for k_, v in outcome.items()}
+        ok_l = len(look) == 1 and len(outcome) == 3 and is_ok_none(outcome["err"]) and is_ok_none(outcome["none"]) and is_ok_some(outcome["some"])
+        ck.check(ok_l, "R-STATUS", b["q"] + "|lookup-error", "lookup Err -> Ok(None) (404), Ok(None) -> Ok(None) (404), Ok(Some(tile)) -> a response (200): evaluated for the three lookup results",
+                 "get_data maps the lookup results to %s%s: a failing or empty lookup must be answered as `no tile`, a found tile as a response" % (shown, "; " + why_l if why_l else ""), ir.loc(b))
         # 404 for a tile request only on the source's own answer: once the coordinate is built, no `Ok(None)` may be produced
         # before the reader was asked (the source decides which coordinates hold a tile — e.g. zoom level 31 is valid)
         if len(look) == 1:
